@@ -549,7 +549,17 @@ def check_heap(rep, repo: Repo, pre: str = "") -> None:
             hole = (shifts, final, Ih, lh) if pol in hole_down else None
         # child selections: binds whose value is left_son(I) / right_son(I) (or 2I+1 / 2I+2) under a cost test
         cands = []
+        import dataclasses as _dc
+        expanded = []
         for e in w.events:
+            # `j = left if <test> else i` is `if <test>: j = left` / `else: j = i`
+            if e.kind == "bind" and e.value is not None and strip_old(e.value)[0] == "sel":
+                sv = strip_old(e.value)
+                expanded.append(_dc.replace(e, value=sv[2], guards=e.guards + ((sv[1], True),)))
+                expanded.append(_dc.replace(e, value=sv[3], guards=e.guards + ((sv[1], False),)))
+            else:
+                expanded.append(e)
+        for e in expanded:
             if e.kind != "bind" or not e.guards:
                 continue
             v = strip_old(e.value)
